@@ -41,6 +41,7 @@ ASSUMPTIONS = [
     "the token sequence of ppci is the token stream of CPreProcessor.process_file (what the C parser consumes), "
     "not a re-lexing of the text written by CTokenPrinter",
     "intmax_t/uintmax_t are 64 bit; >> of negative values and shifts by >= 64 are not generated",
+    "a unit on which ppci produces nothing within 20 s (normal: milliseconds) counts as non-termination, i.e. a failure",
 ]
 TRUSTED = ["CPython", "Hypothesis", "gcc 12 (cpp)", "tokenizer and reference preprocessor in vf/cppref.py (must agree with gcc on every judged case)"]
 TECHNIQUE = "differential testing against gcc -E on generated macro/conditional translation units, token-level comparison"
@@ -89,14 +90,18 @@ def _alarm(signum, frame):
     raise _Timeout()
 
 
-def run_ppci(src, limit=10):
+PPCI_LIMIT = [20]  # seconds; a unit takes milliseconds
+
+
+def run_ppci(src, limit=None):
     """-> ("ok", [spellings]) | ("exc", type name, innermost ppci frame 'file:function', text) | ("timeout",)"""
     from ppci.lang.c import COptions, CPreProcessor
     from ppci.lang.c.utils import LineInfo
 
     pp = CPreProcessor(COptions())
+    limit = limit or PPCI_LIMIT[0]
     old = signal.signal(signal.SIGALRM, _alarm)
-    signal.alarm(limit)
+    signal.setitimer(signal.ITIMER_REAL, limit, 1.0)  # repeats, in case one exception is swallowed
     try:
         toks = []
         for t in pp.process_file(io.StringIO(src), "t.c"):
@@ -114,7 +119,7 @@ def run_ppci(src, limit=10):
         text = getattr(e, "msg", None) or str(e)
         return ("exc", type(e).__name__, frame, str(text)[:200])
     finally:
-        signal.alarm(0)
+        signal.setitimer(signal.ITIMER_REAL, 0)
         signal.signal(signal.SIGALRM, old)
 
 
@@ -177,16 +182,7 @@ def evaluate(case):
         raise Discard("reference-disagrees-with-gcc")
     res = run_ppci(src)
     info = {"feats": feats, "gcc": gcc, "ppci": res}
-    if res[0] == "timeout":
-        raise Discard("ppci-timeout")
-    if res[0] == "exc":
-        return "ppci raised %s in %s: %s   [gcc: %s]" % (res[1], res[2], res[3], " ".join(gcc)[:300]), info
-    if res[1] != gcc:
-        i = 0
-        while i < len(gcc) and i < len(res[1]) and gcc[i] == res[1][i]:
-            i += 1
-        return "token sequences differ at token %d: ppci ...%s | gcc ...%s" % (i, " ".join(res[1][max(0, i - 3) : i + 8]), " ".join(gcc[max(0, i - 3) : i + 8])), info
-    return None, info
+    return compare(src, gcc, res), info
 
 
 def replay(case):
@@ -647,6 +643,8 @@ def gcc_batch(srcs, names):
 
 
 def compare(src, gcc, res):
+    if res[0] == "timeout":
+        return "ppci did not finish within %d s (gcc and the reference model need milliseconds)   [gcc: %s]" % (PPCI_LIMIT[0], " ".join(gcc)[:300])
     if res[0] == "exc":
         return "ppci raised %s in %s: %s   [gcc: %s]" % (res[1], res[2], res[3], " ".join(gcc)[:300])
     if res[1] != gcc:
@@ -658,6 +656,8 @@ def compare(src, gcc, res):
 
 
 def signature(msg):
+    if msg.startswith("ppci did not finish"):
+        return "timeout"
     if msg.startswith("ppci raised"):
         return msg.split(":")[0] + msg.split(":")[1].split(" ")[0]
     return "diff"
@@ -666,19 +666,27 @@ def signature(msg):
 def shrink(case, msg, budget=60):
     """Greedy reduction of a failing unit (lines, conditional groups, then tokens), each candidate re-judged
     by the full evaluate() (own gcc run)."""
+    import time
+
     want = signature(msg)
     best = case["src"]
     bestmsg = msg
     spent = [0]
+    t_end = time.time() + 45
 
     def fails(src):
-        if spent[0] >= budget:
+        if spent[0] >= budget or time.time() > t_end:
+            spent[0] = budget
             return None
         spent[0] += 1
+        saved = PPCI_LIMIT[0]
+        PPCI_LIMIT[0] = 3
         try:
             m, _ = evaluate({"src": src})
         except Discard:
             return None
+        finally:
+            PPCI_LIMIT[0] = saved
         if m is not None and signature(m) == want:
             return m
         return None
@@ -740,6 +748,12 @@ def _worker(arg):
     open_ids = open_finding_ids(PID)
     cfg = generator_cfg(open_ids, thorough)
     pool = {}
+    try:  # a runaway expansion must not exhaust the machine
+        import resource
+
+        resource.setrlimit(resource.RLIMIT_AS, (4 << 30, resource.getrlimit(resource.RLIMIT_AS)[1]))
+    except (ImportError, ValueError, OSError):
+        pass
 
     def collect(case):
         src = case["src"]
@@ -778,10 +792,10 @@ def _worker(arg):
                 if len(stats.notes) < 3:
                     stats.notes.append("reference model and gcc disagree on: %r" % src[:300])
                 continue
-            res = run_ppci(src)
-            if res[0] == "timeout":
-                stats.discard("ppci-timeout")
+            if len(fails) >= 2:
+                stats.budget_skipped += 1
                 continue
+            res = run_ppci(src, 10)
             cl = nontrivial_classes(feats)
             nt = bool(cl)
             for f in ("empty_arg", "if_defined", "if_shift", "paste_empty_arg", "stringize_literal", "funlike_at_end", "paste_multi_token_arg"):
@@ -798,8 +812,7 @@ def _worker(arg):
             if kid and kid in open_ids:
                 stats.known[kid] += 1
                 continue
-            if len(fails) < 2:
-                fails.append(shrink(case, msg))
+            fails.append(shrink(case, msg))
     return stats, fails
 
 
